@@ -7,6 +7,14 @@ CLAIMED = {
          "TLC decides Correct/NoSigNoFind/NoSkip/Progress/Terminates on the design for every prefix over the 5-symbol signature alphabet up to the bound and both header kinds; every terminal state is replayed on the real function (offset, byte order, first-IFD offset, reader position) and recorded executions (incl. seeded random streams of several KiB) must be behaviours of the same spec. Exhaustive small scope + trace conformance is the right level for a pure scanning loop whose failure modes are overlap/skip errors.",
          "Trusted: TLC, the symbol->byte concretiser (bytes outside the alphabet are interchangeable), the tiff hooks (3 one-line events). Prefix lengths beyond the bound are covered only by random streams.",
          "DESIGN.md section 4 C12"),
+ "C09": ("TLA+ spec ImageType (decision list vs. independent signature table) model-checked by TLC over all single-byte perturbations and byte-range crossovers of 27 canonical headers + every enumerated header replayed on Buf/Scan/ScanBuf/ReadAt",
+         "TLC checks Sound/Complete/Total between two formulations of the classification on ~280k distinct 24-byte headers; every header is replayed on all sniffing entry points with signature-bearing suffixes (prefix-only), stream-not-consumed and short-stream checks. Exhaustive small-scope enumeration is the right level for a pure 24-byte decision function.",
+         "Trusted: TLC, the signature table (written from the format documents; two documented design decisions included), the batch op. Arbitrary 24-byte strings far from any canonical header are not enumerated.",
+         "DESIGN.md section 4 C09"),
+ "C10": ("TLA+ spec Jpeg (marker scanner with the code's offset arithmetic vs. layout arithmetic) model-checked by TLC + emitted cases replayed on jpeg.ScanJPEG with recording callbacks + hook traces validated by Trace_Jpeg (closed traces, invariants evaluated at every event)",
+         "TLC decides ExifArgs/XmpBytes/Resync/AbsOff/AllFound/NoFalse/InOrder/Progress/Terminates for all marker sequences up to the bound x XMP consumption x lead; each terminal state is replayed (callback headers, bytes readable inside callbacks, EOF position of the XMP reader, stream position after DQT), and every recorded execution must be a behaviour of the spec with equal offsets at every marker/callback event.",
+         "Trusted: TLC, the JPEG writer (gen/jpeg.go), the jpeg hooks. Well-formed streams only (the property's domain); the Exif callback consumes its declared length.",
+         "DESIGN.md section 4 C10"),
 }
 NOT_APPLICABLE = {
  "C18": "Bit-for-bit equality of AVX and Go float32 DCT kernels and their error bound against the real DCT-II are IEEE-754 statements over 2^(32*64) inputs; TLA+/TLC has no floating point and the kernels have no state machine to specify (DESIGN.md section 5).",
